@@ -391,6 +391,8 @@ class VG:
             return conj(cs)
         if k == 'pref':
             return self.pat_cond(p['pat'], v)
+        if k == 'pslice':
+            return conj([self.pat_cond(sp, self.seq_elem(v, i)) for i, sp in enumerate(p['pats'])])
         if k == 'pstruct' and not pat_is_some(p) and not pat_is_none(p):
             return TRUE
         if k == 'por':
@@ -419,6 +421,13 @@ class VG:
     def tuple_elem(self, v, i):
         if v[0] == 'tuple' and i < len(v[1]):
             return v[1][i]
+        if v[0] == 'ref' and isinstance(v[1], tuple) and v[1] and v[1][0] == 'field':
+            # a reference to a tuple-typed field destructured by a pattern: references to its component places
+            return ('ref', ('field', v[1][1] + '.%d' % i))
+        if v[0] == 'selfref':
+            return ('proj', v, i)
+        if v[0] == 'in':
+            return self.get_field(v[1] + '.%d' % i)
         return ('proj', v, i)
 
     def bind_pat(self, p, v, fr):
@@ -441,6 +450,10 @@ class VG:
             for i, sp in enumerate(p['pats']):
                 self.bind_pat(sp, self.tuple_elem(v, i), fr)
             return
+        if k == 'pslice':
+            for i, sp in enumerate(p['pats']):
+                self.bind_pat(sp, self.seq_elem(v, i), fr)
+            return
         if k == 'pref':
             if isinstance(v, tuple) and v and v[0] == 'ref':
                 self.bind_pat(p['pat'], self.read_place(v[1]), fr)
@@ -456,6 +469,10 @@ class VG:
                     fv = ('ref', ('field', v[1][1] + '.' + f['name']))
                 elif isinstance(v, tuple) and v and v[0] == 'struct':
                     fv = v[2].get(f['name'])
+                if fv is None and isinstance(v, tuple) and v and v[0] == 'in':
+                    # the struct-typed field read as a whole: its components are the sub-field cells (which may have been
+                    # written individually since entry)
+                    fv = self.get_field(v[1] + '.' + f['name'])
                 if fv is None:
                     fv = ('fieldof', v, f['name'])
                 self.bind_pat(f['pat'], fv, fr)
@@ -522,6 +539,8 @@ class VG:
             return b[2].get(e['name'], unk('no-field'))
         if b[0] == 'tuple' and e['name'].isdigit():
             return self.tuple_elem(b, int(e['name']))
+        if b[0] == 'in':
+            return self.get_field(b[1] + '.' + e['name'])
         return ('fieldof', b, e['name'])
 
     def v_addr(self, e, fr):
@@ -597,6 +616,19 @@ class VG:
         cur = self.read_place(p)
         lty = e['l'].get('ty', '')
         if is_int_tyname(lty):
+            if o in ('add', 'sub') and isinstance(r, tuple) and r and r[0] == 'phi' and r[2][0] == 'lit' and r[3][0] == 'lit':
+                # x op= (c ? a : b) with literal a, b  ==  if c { x op= a } else { x op= b }
+                arms = []
+                for cond_, k_ in ((r[1], r[2]), (neg_cond(r[1]), r[3])):
+                    if k_[1] == 0:
+                        arms.append(cur)
+                    else:
+                        self.pc.append(cond_)
+                        self.event('int_' + o, (cur, k_, lty), e)
+                        self.pc.pop()
+                        arms.append(op('i' + o, cur, k_))
+                self.write_place(p, phi(r[1], arms[0], arms[1]), e)
+                return ('unit',)
             self.event('int_' + o, (cur, r, lty), e)
             self.write_place(p, op('i' + o, cur, r), e)
         else:
@@ -610,6 +642,18 @@ class VG:
         i = self.value(e['idx'], fr)
         self.event('index', (b, i), e)
         return ('get', b, i)
+
+    def seq_elem(self, v, i):
+        """i-th element of an array value (literal arrays project directly)."""
+        if isinstance(v, tuple) and v and v[0] == 'ref':
+            v = self.read_place(v[1])
+        if isinstance(v, tuple) and v and v[0] == 'seq_lit' and i < len(v[1]):
+            return v[1][i]
+        if isinstance(v, tuple) and v and v[0] == 'seq_rep':
+            return v[1]
+        if isinstance(v, tuple) and v and v[0] == 'phi':
+            return phi(v[1], self.seq_elem(v[2], i), self.seq_elem(v[3], i))
+        return ('get', v, lit(i, 'i'))
 
     def v_repeat(self, e, fr):
         # [x; N]: a fixed-size array with N copies (N is part of the type)
@@ -1247,6 +1291,36 @@ class VG:
                     cur = self.read_place(rp)
                     self.write_place(rp, NONE, e)
                     return cur
+            if short in ('replace', 'insert', 'get_or_insert', 'get_or_insert_with'):
+                rp = self.place_of(e['args'][0], fr)
+                if rp is None and isinstance(o, tuple) and o and o[0] in ('ref', 'optref'):
+                    rp = o[1]
+                if rp is not None:
+                    cur = self.read_place(rp)
+                    if short == 'replace':
+                        self.write_place(rp, some(d(argv[1])), e)
+                        return cur
+                    if short == 'insert':
+                        self.write_place(rp, some(d(argv[1])), e)
+                        return ('ref', ('payload', rp))
+                    if short == 'get_or_insert':
+                        newv = d(argv[1])
+                    else:
+                        cl = argv[1]
+                        if isinstance(cl, tuple) and cl and cl[0] == 'closure':
+                            saved = self.save()
+                            self.pc.append(neg_cond(is_some(cur)))
+                            newv = d(self.apply_closure(cl, [], fr))
+                            self.restore(saved)
+                        else:
+                            fn_node = strip(e['args'][1])
+                            fname = canon(fn_node.get('def', '')) if fn_node.get('k') == 'path' else ''
+                            if fname.split('::')[-1] in FLOAT_CONSTS and fname.startswith(('num::', 'num_traits::')):
+                                newv = lit(FLOAT_CONSTS[fname.split('::')[-1]], 'f')
+                            else:
+                                return self.note_unknown('option-get_or_insert_with-non-closure', e)
+                    self.write_place(rp, phi(is_some(cur), cur, some(newv)), e)
+                    return ('ref', ('payload', rp))
             if short in ('zip',):
                 b = d(argv[1])
                 return phi(conj([is_some(od), is_some(b)]), some(('tuple', (payload(od), payload(b)))), NONE)
@@ -1332,6 +1406,35 @@ class VG:
             if short in ('div', 'rem'):
                 self.event('fdiv', tuple(args), e)
             return op(short, *args)
+        if name == 'std::iter::Extend::extend' and len(argv) == 2 and (
+                (isinstance(argv[0], tuple) and argv[0] and argv[0][0] == 'ref') or self.place_of(e['args'][0], fr) is not None):
+            # v.extend(iterator) with a describable iterator: the sequence grows by `count` items item(0..count-1)
+            place = argv[0][1] if (isinstance(argv[0], tuple) and argv[0] and argv[0][0] == 'ref') else self.place_of(e['args'][0], fr)
+            it = argv[1]
+            if isinstance(it, tuple) and it and it[0] == 'ref':
+                it = ('iter', self.read_place(it[1]))
+            d_ = iter_desc(it) if isinstance(it, tuple) else None
+            if d_ is not None and d_[0] is not None and place[0] in ('local', 'field'):
+                cnt, item_fn = d_
+                self.nloops += 1
+                L = 'L%d' % self.nloops
+                p_ = ('idx', L)
+                cur = self.read_place(place)
+                self.loops[L] = {'iter': ('range', lit(0, 'i'), cnt, False), 'node': e, 'carried': {}, 'outer': tuple(self.loop_stack),
+                                 'hyps': [op('ge', p_, lit(0, 'i')), op('lt', p_, cnt)], 'item': self.deref(item_fn(p_))}
+                self.event('grow', (place, cur), e)
+                self.write_place(place, ('ext', cur, L, cnt), e)
+                return ('unit',)
+        if name in ('std::convert::From::from', 'std::convert::Into::into') and len(argv) == 1:
+            aty = str(e['args'][0].get('ty', '')).lstrip('&')
+            rty = str(e.get('ty', ''))
+            a = d(argv[0])
+            if aty == 'bool' and is_int_tyname(rty):
+                return phi(a, lit(1, 'i'), lit(0, 'i'))
+            if is_int_tyname(aty) and is_int_tyname(rty):
+                return a        # widening integer conversion
+            if aty == rty:
+                return a
         if name in ('std::mem::swap', 'std::mem::replace', 'std::mem::take'):
             if short == 'replace' and isinstance(argv[0], tuple) and argv[0][0] == 'ref':
                 old = self.read_place(argv[0][1])
@@ -1374,7 +1477,33 @@ class VG:
         node = cl[2]
         for p, a in zip(node['params'], args):
             self.bind_pat(p, a, fr)
-        return self.block_value(node['body'], fr) if node['body'].get('k') == 'block' else self.value(node['body'], fr)
+        # a `return` inside the closure leaves the closure, not the enclosing function: collect such exits separately and
+        # merge them with the fall-through value (phi chain over their path conditions, as for an inlined function)
+        has_ret = any(n.get('k') == 'ret' for n in walk(node['body']))
+        if not has_ret:
+            return self.block_value(node['body'], fr) if node['body'].get('k') == 'block' else self.value(node['body'], fr)
+        saved_exits = fr.exits
+        saved_loops = self.loop_stack
+        fr.exits = []
+        self.loop_stack = []
+        base_pc = list(self.pc)
+        try:
+            v = self.block_value(node['body'], fr) if node['body'].get('k') == 'block' else self.value(node['body'], fr)
+            rets = fr.exits
+        finally:
+            fr.exits = saved_exits
+            self.loop_stack = saved_loops
+        fell = not self.dead
+        self.dead = False
+        self.pc = base_pc
+        acc = v if fell else None
+        for ex in reversed(rets):
+            c = conj([x for x in ex.pc[len(base_pc):] if not (isinstance(x, tuple) and x and x[0] == 'inloop')])
+            acc = ex.ret if acc is None else phi(c, ex.ret, acc)
+        if acc is None:
+            self.dead = True
+            return unk('dead')
+        return acc
 
     def seq_place(self, e, fr):
         """Place of the receiver sequence of a method call (for mutation)."""
@@ -1537,14 +1666,17 @@ class VG:
             return phi(nonempty, some(red), NONE)
         if short == 'map':
             return ('map', it, argv[1])
-        if short in ('sum', 'product', 'fold', 'for_each'):
-            # synthesise a fold over the iterator: acc' = acc (+|*) item, or closure(acc, item)
+        if short == 'filter' and len(argv) == 2 and isinstance(argv[1], tuple) and argv[1] and argv[1][0] == 'closure':
+            return ('filter', it, argv[1])
+        if short in ('sum', 'product', 'fold', 'for_each', 'count') and not (short == 'count' and isinstance(it, tuple) and it and it[0] in ('iter', 'copied') and _iter_seq(it) is not None):
+            # synthesise a fold over the iterator: acc' = acc (+|*) item, or closure(acc, item); map / filter adaptors are
+            # applied to the item (a filtered-out item leaves the accumulator unchanged)
             base = it
             maps = []
-            while isinstance(base, tuple) and base and base[0] == 'map':
-                maps.append(base[2])
+            while isinstance(base, tuple) and base and base[0] in ('map', 'filter'):
+                maps.append((base[0], base[2]))
                 base = base[1]
-            if isinstance(base, tuple) and base and (base[0] in ('iter', 'range', 'enumerate', 'take', 'skip', 'copied') or (_needs_canon(base) and iter_desc(base) is not None and iter_desc(base)[0] is not None)):
+            if isinstance(base, tuple) and base and (base[0] in ('iter', 'range', 'enumerate', 'take', 'skip', 'copied', 'rev') or (_needs_canon(base) and iter_desc(base) is not None and iter_desc(base)[0] is not None)):
                 self.nloops += 1
                 L = 'L%d' % self.nloops
                 key = ('local', 'acc%d' % self.nloops)
@@ -1556,13 +1688,20 @@ class VG:
                 self.loop_stack.append(L)
                 item = self.deref(item) if not (isinstance(item, tuple) and item and item[0] == 'tuple') else item
                 ok = True
-                for cl in reversed(maps):
+                keep = []
+                for kind_, cl in reversed(maps):
                     if isinstance(cl, tuple) and cl[0] == 'closure':
-                        item = self.apply_closure(cl, [item], fr)
+                        if kind_ == 'map':
+                            item = self.apply_closure(cl, [item], fr)
+                        else:
+                            # filter closures take a reference to the item
+                            keep.append(self.deref(self.apply_closure(cl, [item], fr)))
                     else:
                         ok = False
                 mu = ('mu', L, key)
-                if short == 'sum':
+                if short == 'count':
+                    init, nxt = lit(0, 'i'), op('iadd', mu, lit(1, 'i'))
+                elif short == 'sum':
                     init, nxt = lit(0.0), op('add', mu, self.deref(item))
                 elif short == 'product':
                     init, nxt = lit(1.0), op('mul', mu, self.deref(item))
@@ -1589,6 +1728,8 @@ class VG:
                 self.loop_stack.pop()
                 self.pc = saved_pc
                 if ok:
+                    if keep:
+                        nxt = phi(conj(keep), nxt, mu)
                     info['carried'][key] = (init, nxt)
                     return ('fold', L, key, init, nxt)
             return self.note_unknown('iter-' + short, e)
